@@ -95,14 +95,21 @@ def r2_affine_invariant(repo=None):
         idx = None
         rvar = None
         arrname = "arr"
+        from .. import pyform
         for i, s in enumerate(fn.body):
-            if isinstance(s, ast.Try):
+            # the try statement itself, or the single-iteration block an inlined helper with the try leaves behind
+            if isinstance(s, ast.Try) or (pyform.is_once_block(s) and any(isinstance(x, ast.Try) for x in s.body)):
                 for n in ast.walk(s):
                     if isinstance(n, ast.Assign) and isinstance(n.value, ast.Call) and pyfront.call_name(n.value) == ext:
                         idx = i
                         rvar = n.targets[0].id
                         # the data array handed to the extension (second argument, after the channel object)
                         arrname = n.value.args[1].id if len(n.value.args) > 1 and isinstance(n.value.args[1], ast.Name) else "arr"
+                        # a local that only carries the argument into an inlined helper stands for the name it was bound to
+                        cp = [a for a in fn.body[:i] if isinstance(a, ast.Assign) and len(a.targets) == 1 and isinstance(a.targets[0], ast.Name)
+                              and a.targets[0].id == arrname]
+                        if len(cp) == 1 and isinstance(cp[0].value, ast.Name) and "__h" in arrname:
+                            arrname = cp[0].value.id
         if idx is None:
             raise AnalysisError("%s: extension call %s not found in a try statement" % (q, ext))
         post = fn.body[idx + 1:]
@@ -309,7 +316,17 @@ def r4_last_written_survive_close(repo=None):
                     for x in ast.walk(h):
                         if isinstance(x, ast.Return) and (pyfront.dotted(x.value) or "").startswith("self."):
                             attr = pyfront.dotted(x.value)[5:]
+                    # the handler only swallows the error and the statement after the try returns the cached attribute
+                    if attr is None and not any(isinstance(x, (ast.Raise, ast.Return)) for x in ast.walk(h)) and tr in gf.body:
+                        after = gf.body[gf.body.index(tr) + 1:]
+                        if after and isinstance(after[0], ast.Return) and (pyfront.dotted(after[0].value) or "").startswith("self."):
+                            attr = pyfront.dotted(after[0].value)[5:]
         if attr is None:
+            # positive evidence only: the channel object is used with no try / hasattr / if around it at all
+            guarded = any(isinstance(x, (ast.Try, ast.If, ast.IfExp)) for x in ast.walk(gf)) or any(
+                isinstance(x, ast.Call) and pyfront.call_name(x) in ("hasattr", "getattr") for x in ast.walk(gf))
+            if guarded:
+                raise AnalysisError("%s: how the getter answers once the channel object is gone was not recognised" % gq)
             r.violation(m.rel, gq, "no AttributeError fallback to a cached attribute", "the getter fails after close", line=gf.lineno)
             continue
         r.ok("%s:%s %s" % (m.rel, gf.lineno, gq), "falls back to self.%s when the channel object is gone" % attr)
